@@ -114,3 +114,14 @@ Definition stats_num_chunks (sz cs : N * N * N) : Z :=
 Definition stats_size_bytes (sz : N * N * N) (itemsize channels : N) : Z :=
   let '(sx, sy, sz_) := sz in
   wrap_i64 (wrap_i64 (Z.of_N (sx * sy * sz_)) * Z.of_N itemsize * Z.of_N channels).
+
+(* totals of show_scales_info: `total += x` with numpy int64 scalars (the first
+   addition, Python int 0 + int64, is exact; later ones wrap like int64) over
+   one row per (scale, chunk size) pair *)
+Definition stats_totals (rows : list (Z * Z)) : Z * Z :=
+  fold_left (fun acc r => (wrap_i64 (fst acc + fst r), wrap_i64 (snd acc + snd r)))
+            rows (0, 0)%Z.
+Definition info_rows (scales : list ((N * N * N) * list (N * N * N))) (itemsize channels : N)
+  : list (Z * Z) :=
+  flat_map (fun s => map (fun cs => (stats_num_chunks (fst s) cs,
+                                     stats_size_bytes (fst s) itemsize channels)) (snd s)) scales.
